@@ -447,7 +447,7 @@ func (fr *Frame) step(in ssa.Instruction, st *State, g Term) {
 			vals = append(vals, fr.val(r, st))
 		}
 		if fr.onReturn != nil {
-			fr.onReturn(fr, g, vals, st)
+			fr.onReturn(fr, g, vals, st, i.Pos())
 		}
 		fr.rets = append(fr.rets, retPoint{g: g, vals: vals, st: st})
 	case *ssa.Panic:
